@@ -43,7 +43,7 @@ CLAIMED["C13"] = (
     "`remaining` is written only by track with exactly that cost, the tracker is read nowhere else, and the budget "
     "arithmetic has no value-changing cast or overflow-capable operation.  These make the cost of a render "
     "independent of the budget and success monotone in it for all programs and all budgets up to u64::MAX; the "
-    "numeric threshold of a particular render is not computed.",
+    "numeric threshold of a particular render is not computed. (G6) the configured budget reaches the tracker unchanged: writers of Environment.fuel store their argument / a constant / a clone, the getter returns the field, State::new maps it through FuelTracker::new.",
     "DESIGN.md §3 C13",
     "Configuration MAX (feature fuel on).  Host callbacks cannot reach the private tracker (type privacy).")
 
@@ -69,7 +69,7 @@ CLAIMED["C11"] = (
     "the whole-program call graph (CHA + closure + fn-pointer + generic/dyn callback resolution) the interpreter is "
     "acyclic once the charged edges are removed and cannot reach the uncharged top-level entry.  This decides, for "
     "all recursive program shapes, that recursion is counted against the limit; whether the native stack suffices "
-    "for the counted depth is a per-frame size question the quick tier does not decide. Also: the inherited depth counter is written only as reset / +=delta / -=delta / absolute restore of a Context::depth() checkpoint taken before the charge, and decr_depth uses the constant of the dominating incr_depth; thorough tier: a lower bound of native stack use (frame sizes from -Zemit-stack-sizes x nesting admitted by the limit) stays below 2 MiB. Later additions: (R7) every conditional part of a charge holds whenever Context::depth() exceeds a small constant, and constructs that reset current_block raise the depth above it; R5 (thorough) separates unconditional from conditional charges and bounds mixed two-construct cycles.",
+    "for the counted depth is a per-frame size question the quick tier does not decide. Also: the inherited depth counter is written only as reset / +=delta / -=delta / absolute restore of a Context::depth() checkpoint taken before the charge, and decr_depth uses the constant of the dominating incr_depth; thorough tier: a lower bound of native stack use (frame sizes from -Zemit-stack-sizes x nesting admitted by the limit) stays below 2 MiB. Later additions: (R7) every conditional part of a charge holds whenever Context::depth() exceeds a small constant, and constructs that reset current_block raise the depth above it; R5 (thorough) separates unconditional from conditional charges and bounds mixed two-construct cycles. (R9) a function that installs another context hands the call site's depth to it on every path to the swap, with no zeroing call in between.",
     "DESIGN.md §3 C11",
     "No analysed configuration enables stacker.  The reviewed constants (4, 10, 500) encode the measured stack margin; "
     "lowering a cost or raising the cap is reported.")
@@ -100,7 +100,7 @@ CLAIMED["C14"] = (
     "into a Span comes from tokenizer position fields, byte offsets change only by a character's len_utf8 and only "
     "`advance` moves the tokenizer offset (by slicing the input); instructions are emitted without a line record "
     "only at reviewed sites.  Decides that locations are attached on all error paths and that reported ranges are "
-    "character-aligned by construction; that the line is the *correct* one (shift-by-N) is value-level and not decided. Also: (F5) interprocedural FRESH/STALE analysis of the code generator: a fallible instruction is never emitted with the plain add() before the generator's line was set for the current statement; (F6) expand_span refuses to invert a span, or every path to it consumes a token; the function that moves the lexer offset also counts the newlines it skips (found by the write, not by name). Later additions: the error formatting code slices source text only at text-derived byte offsets (never at a character column).",
+    "character-aligned by construction; that the line is the *correct* one (shift-by-N) is value-level and not decided. Also: (F5) interprocedural FRESH/STALE analysis of the code generator: a fallible instruction is never emitted with the plain add() before the generator's line was set for the current statement; (F6) expand_span refuses to invert a span, or every path to it consumes a token; the function that moves the lexer offset also counts the newlines it skips (found by the write, not by name). Later additions: the error formatting code slices source text only at text-derived byte offsets (never at a character column). (F7) the pooled span-stack buffer is cleared when taken and every compile_* function leaves the span stack as it found it, so a recorded range always belongs to the template being compiled.",
     "DESIGN.md §3 C14",
     "std str slicing panics on non-boundaries (so a wrong byte count cannot produce a bad range silently).")
 
@@ -114,7 +114,7 @@ CLAIMED["C04"] = (
     "to run time); `not` and container literals use the same truthiness / constructors on both sides.  This "
     "decides literal/variable transparency at the level 'both evaluators run the same function on the same "
     "operands' for all operators and all operand values; it does not decide anything about the operator functions "
-    "themselves (that is C08). Also: unary minus is ops::neg alone in the folder, the literal fast path and the interpreter; the folded comparison chain compares neighbours and stops at the first false link; every keyword argument contributes (compiled or stored) on every path of the emitting loop; a closure that evaluates an operator at compile time is never consumed by an adaptor that swallows None. (K9) inside as_const no value is fabricated from a Rust scalar except the negated truthiness of `not` and the truth value of a comparison chain.",
+    "themselves (that is C08). Also: unary minus is ops::neg alone in the folder, the literal fast path and the interpreter; the folded comparison chain compares neighbours and stops at the first false link; every keyword argument contributes (compiled or stored) on every path of the emitting loop; a closure that evaluates an operator at compile time is never consumed by an adaptor that swallows None. (K9) inside as_const no value is fabricated from a Rust scalar except the negated truthiness of `not` and the truth value of a comparison chain. (K10) the folder never produces an undefined value.",
     "DESIGN.md §3 C04",
     "Keyword-argument constant handling in codegen (static kwargs) is not covered.")
 
@@ -127,7 +127,7 @@ CLAIMED["C08"] = (
     "arithmetic; integer literals convert through from_str_radix with the error reported; every value `neg` returns "
     "is the result of a negation.  This decides 'no wrap, no silent truncation, no dropped sign, one // and % "
     "convention' for all operand pairs and storage widths; numeric values themselves and exact int/float comparison "
-    "are not decided. Also: inside the operator functions no arithmetic helper of a type narrower than 128 bits decides the outcome (wrapping/saturating forms reported; the None of a narrow checked_* must fall through to the 128-bit computation). Later additions: (N7) in as_f64 every path to None passes the cast round trip or its saturation bound, and every round trip is dominated by rv < T::MAX as f64.",
+    "are not decided. Also: inside the operator functions no arithmetic helper of a type narrower than 128 bits decides the outcome (wrapping/saturating forms reported; the None of a narrow checked_* must fall through to the 128-bit computation). Later additions: (N7) in as_f64 every path to None passes the cast round trip or its saturation bound, and every round trip is dominated by rv < T::MAX as f64. (N8) the mixed float/integer orderings cast the float to the integer type only below a dominating comparison with the type's maximum.",
     "DESIGN.md §3 C08",
     "One known finding (neg of 2^127 keeps the sign positive) is pinned by an existing snapshot and therefore listed, not repaired.")
 
@@ -184,7 +184,7 @@ CLAIMED["C12"] = (
     "Result of each of the ~60 helper call sites is returned/propagated; a value of type UndefinedBehavior is only "
     "passed to the reviewed functions (never into data); is defined / is undefined / default never assert their "
     "operand.  Together a non-interference argument for 'stricter modes only add errors' over all programs and "
-    "contexts; per-site behaviour of third-party callbacks is assumed mode-independent. Also: inside the interpreter a stack value is iterated only through UndefinedBehavior::try_iter (two reviewed exceptions); every path through the Emit handler passes the {Strict, SemiStrict} test or Environment::format. Later additions: (M8) in the GetAttr / GetItem handlers a failed lookup passes handle_undefined(x.is_undefined()) for the container x before anything is pushed.",
+    "contexts; per-site behaviour of third-party callbacks is assumed mode-independent. Also: inside the interpreter a stack value is iterated only through UndefinedBehavior::try_iter (two reviewed exceptions); every path through the Emit handler passes the {Strict, SemiStrict} test or Environment::format. Later additions: (M8) in the GetAttr / GetItem handlers a failed lookup passes handle_undefined(x.is_undefined()) for the container x before anything is pushed. (M9) the constant folder never produces an undefined value (its effect is decided by the mode at run time).",
     "DESIGN.md §3 C12",
     "Host-registered filters/functions/objects are assumed not to consult the undefined behavior.")
 
@@ -198,7 +198,7 @@ CLAIMED["C05"] = (
     "and the for-else body are parsed with in_loop reset; in the VM every nested-evaluation helper closes what it "
     "opens on every path (reviewed error-path exception), with_execution_state writes back what it replaced, and the "
     "handlers of the scope instructions perform exactly their operation.  This decides the property's structural "
-    "content for all templates the compiler accepts and all control-flow paths of the emitted code. Also: the scope walk of break/continue and their jump-target searches scan the pending blocks in the same direction; every instruction emitted at the loop end ahead of PopLoopFrame pushes nothing on the interpreter paths of a recursive loop invocation. Later additions: conversely, every closer (decr_depth, reset_closure, BlockStack::pop) is reachable only after its opener succeeded on that path (flags tested twice and never written are case-split). B8: every value assigned to the interpreter's program counter is a jump operand of the fetched instruction, a constant, pc + k, a return address whose every producer (traced across functions) is pc + k of the same interpreter, or a position remembered in an object used only behind a comparison of the running instructions' identity with the identity stored beside it, the pair being built from the interpreter's own state and counter.",
+    "content for all templates the compiler accepts and all control-flow paths of the emitted code. Also: the scope walk of break/continue and their jump-target searches scan the pending blocks in the same direction; every instruction emitted at the loop end ahead of PopLoopFrame pushes nothing on the interpreter paths of a recursive loop invocation. Later additions: conversely, every closer (decr_depth, reset_closure, BlockStack::pop) is reachable only after its opener succeeded on that path (flags tested twice and never written are case-split). B8: every value assigned to the interpreter's program counter is a jump operand of the fetched instruction, a constant, pc + k, a return address whose every producer (traced across functions) is pc + k of the same interpreter, or a position remembered in an object used only behind a comparison of the running instructions' identity with the identity stored beside it, the pair being built from the interpreter's own state and counter. The span stack is a fourth counter of the B1 typestate.",
     "DESIGN.md §3 C05",
     "Patched jump targets are tied to the pending-block nesting the check verifies; the run-time meaning of frames/captures themselves is trusted.")
 
